@@ -42,6 +42,9 @@ RAW_KINDS = {
     "number_list": "[1, 2.5]", "word_list": "[abc, def]", "nested_list": "[[1, 2], [3]]", "tuple": '[k: v, "k2": "v2"]',
     "existing_result": "Src", "missing_name": "Nowhere", "path_like": "C:\\data\\x.csv",
     "nul_text": '"in\x00put.csv"', "lone_surrogate": '"in\\ud800put.csv"', "control_text": '"a\x0cb\x85c\u2028d"',
+    # texts that Python's float() accepts but that are not finite numbers
+    "inf_word": "inf", "nan_word": "nan", "overflowing_exponent_word": "1e999", "quoted_neg_infinity": '"-Infinity"',
+    "nonfinite_list": "[inf, -1e999, nan]",
 }
 
 
